@@ -14,8 +14,8 @@ open Expr
 def WFSys (A : Nat → Nat → Option Expr) (B : Nat → Option Expr) : Prop :=
   (∀ i j, OWF (A i j) ∧ OSolid (A i j)) ∧ ∀ i, OWF (B i)
 
-theorem wfSys_step (cap : Bool) (n : Nat) (A : Nat → Nat → Option Expr) (B : Nat → Option Expr) (h : WFSys A B) :
-    WFSys (stepA (cfgPlain cap) n A) (stepB (cfgPlain cap) n A B) := by
+theorem wfSys_step (cap esc : Bool) (n : Nat) (A : Nat → Nat → Option Expr) (B : Nat → Option Expr) (h : WFSys A B) :
+    WFSys (stepA (cfgPlain cap esc) n A) (stepB (cfgPlain cap esc) n A B) := by
   obtain ⟨hA, hB⟩ := h
   constructor
   · intro i j
@@ -23,7 +23,7 @@ theorem wfSys_step (cap : Bool) (n : Nat) (A : Nat → Nat → Option Expr) (B :
     split
     · have hc := owf_concatenate (A i n) (A n j) (hA i n).1 (hA n j).1
       have hs := osolid_concatenate (A i n) (A n j) (hA i n).2
-      obtain ⟨u1, u2⟩ := owf_union cap (A i j) _ (hA i j).1 hc hs
+      obtain ⟨u1, u2⟩ := owf_union cap esc (A i j) _ (hA i j).1 hc hs
       exact ⟨u1, u2 (hA i j).2⟩
     · exact hA i j
   · intro i
@@ -31,14 +31,14 @@ theorem wfSys_step (cap : Bool) (n : Nat) (A : Nat → Nat → Option Expr) (B :
     split
     · have hc := owf_concatenate (A i n) (B n) (hA i n).1 (hB n)
       have hs := osolid_concatenate (A i n) (B n) (hA i n).2
-      exact (owf_union cap (B i) _ (hB i) hc hs).1
+      exact (owf_union cap esc (B i) _ (hB i) hc hs).1
     · exact hB i
 
-theorem elim_loop_wf (cap : Bool) (N : Nat) :
+theorem elim_loop_wf (cap esc : Bool) (N : Nat) :
     ∀ (k : Nat), k ≤ N → ∀ (st : ElimState), StSq N st → WFSys (absA st) (absB st) →
-      NoSelfAlong (cfgPlain cap) st (List.range k).reverse →
-      WFSys (absA ((List.range k).reverse.foldl (elimStep (cfgPlain cap)) st))
-        (absB ((List.range k).reverse.foldl (elimStep (cfgPlain cap)) st)) := by
+      NoSelfAlong (cfgPlain cap esc) st (List.range k).reverse →
+      WFSys (absA ((List.range k).reverse.foldl (elimStep (cfgPlain cap esc)) st))
+        (absB ((List.range k).reverse.foldl (elimStep (cfgPlain cap esc)) st)) := by
   intro k
   induction k with
   | zero => intro _ st _ h _; simpa using h
@@ -47,14 +47,14 @@ theorem elim_loop_wf (cap : Bool) (N : Nat) :
     rw [range_succ_reverse] at hno ⊢
     simp only [List.foldl_cons]
     obtain ⟨hself, hno'⟩ := hno
-    obtain ⟨hst', hA, hB⟩ := elimStep_abs (cfgPlain cap) N k st hst (by omega) hself
-    have hfunA : absA (elimStep (cfgPlain cap) st k) = stepA (cfgPlain cap) k (absA st) := by
+    obtain ⟨hst', hA, hB⟩ := elimStep_abs (cfgPlain cap esc) N k st hst (by omega) hself
+    have hfunA : absA (elimStep (cfgPlain cap esc) st k) = stepA (cfgPlain cap esc) k (absA st) := by
       funext i j; exact hA i j
-    have hfunB : absB (elimStep (cfgPlain cap) st k) = stepB (cfgPlain cap) k (absA st) (absB st) := by
+    have hfunB : absB (elimStep (cfgPlain cap esc) st k) = stepB (cfgPlain cap esc) k (absA st) (absB st) := by
       funext i; exact hB i
     apply ih (by omega) _ hst' _ hno'
     rw [hfunA, hfunB]
-    exact wfSys_step cap k _ _ hsys
+    exact wfSys_step cap esc k _ _ hsys
 
 /-! ### the initial system -/
 
@@ -65,17 +65,17 @@ theorem labelsBs_plain (d : Dfa) (h : LabelsBs d) : d.PlainLabels := by
   obtain ⟨as, hne, _, hs⟩ := h e he _ List.mem_cons_self
   exact ⟨untok as, untok_ne_nil as hne, hs⟩
 
-theorem initRow_wf (cap : Bool) (N : Nat) (states : List Nat) (i : Nat) (es : List Edge) (hes : ∀ e ∈ es, PlainBs [e.label]) :
+theorem initRow_wf (cap esc : Bool) (N : Nat) (states : List Nat) (i : Nat) (es : List Edge) (hes : ∀ e ∈ es, PlainBs [e.label]) :
     ∀ (a : Mat), a.Sq N → (∀ i j, OWF (a.get i j) ∧ OSolid (a.get i j)) →
-      (initRow (cfgPlain cap) states i es a).Sq N ∧
-        ∀ i' j', OWF ((initRow (cfgPlain cap) states i es a).get i' j') ∧ OSolid ((initRow (cfgPlain cap) states i es a).get i' j') := by
+      (initRow (cfgPlain cap esc) states i es a).Sq N ∧
+        ∀ i' j', OWF ((initRow (cfgPlain cap esc) states i es a).get i' j') ∧ OSolid ((initRow (cfgPlain cap esc) states i es a).get i' j') := by
   induction es with
   | nil => intro a hsq h; exact ⟨hsq, h⟩
   | cons e rest ih =>
     intro a hsq h
-    have hstep : initRow (cfgPlain cap) states i (e :: rest) a =
-        initRow (cfgPlain cap) states i rest (match indexOf? states e.dst with
-          | some j => a.set i j (if (a.get i j).isSome then Expr.union (cfgPlain cap) (a.get i j) (some (Expr.lit [e.label])) else some (Expr.lit [e.label]))
+    have hstep : initRow (cfgPlain cap esc) states i (e :: rest) a =
+        initRow (cfgPlain cap esc) states i rest (match indexOf? states e.dst with
+          | some j => a.set i j (if (a.get i j).isSome then Expr.union (cfgPlain cap esc) (a.get i j) (some (Expr.lit [e.label])) else some (Expr.lit [e.label]))
           | none => a) := by
       rfl
     rw [hstep]
@@ -91,16 +91,16 @@ theorem initRow_wf (cap : Bool) (N : Nat) (states : List Nat) (i : Nat) (es : Li
       rw [Mat.get_set hsq]
       split
       · split
-        · obtain ⟨u1, u2⟩ := owf_union cap (a.get i j) _ (h i j).1 hlit.1 hlit.2
+        · obtain ⟨u1, u2⟩ := owf_union cap esc (a.get i j) _ (h i j).1 hlit.1 hlit.2
           exact ⟨u1, u2 (h i j).2⟩
         · exact hlit
       · exact h i' j'
 
-theorem initLoop_wf (cap : Bool) (d : Dfa) (hd : LabelsBs d) (N : Nat) (states : List Nat) :
+theorem initLoop_wf (cap esc : Bool) (d : Dfa) (hd : LabelsBs d) (N : Nat) (states : List Nat) :
     ∀ (rest : List Nat) (k : Nat) (st : ElimState), st.a.Sq N → WFSys (absA st) (absB st) →
-      ((rest.zipIdx k).foldl (initStep (cfgPlain cap) d states) st).a.Sq N ∧
-        WFSys (absA ((rest.zipIdx k).foldl (initStep (cfgPlain cap) d states) st))
-          (absB ((rest.zipIdx k).foldl (initStep (cfgPlain cap) d states) st)) := by
+      ((rest.zipIdx k).foldl (initStep (cfgPlain cap esc) d states) st).a.Sq N ∧
+        WFSys (absA ((rest.zipIdx k).foldl (initStep (cfgPlain cap esc) d states) st))
+          (absB ((rest.zipIdx k).foldl (initStep (cfgPlain cap esc) d states) st)) := by
   intro rest
   induction rest with
   | nil => intro k st hsq h; exact ⟨hsq, h⟩
@@ -108,8 +108,8 @@ theorem initLoop_wf (cap : Bool) (d : Dfa) (hd : LabelsBs d) (N : Nat) (states :
     intro k st hsq h
     simp only [List.zipIdx_cons, List.foldl_cons]
     have hes : ∀ e ∈ d.outEdges s, PlainBs [e.label] := fun e he => hd e ((mem_outEdges d s e).mp he).1
-    obtain ⟨r1, r2⟩ := initRow_wf cap N states k (d.outEdges s) hes st.a hsq h.1
-    apply ih (k + 1) (initStep (cfgPlain cap) d states st (s, k)) r1
+    obtain ⟨r1, r2⟩ := initRow_wf cap esc N states k (d.outEdges s) hes st.a hsq h.1
+    apply ih (k + 1) (initStep (cfgPlain cap esc) d states st (s, k)) r1
     refine ⟨r2, ?_⟩
     intro i
     simp only [absB, initStep]
@@ -120,21 +120,21 @@ theorem initLoop_wf (cap : Bool) (d : Dfa) (hd : LabelsBs d) (N : Nat) (states :
       · exact h.2 i
     · exact h.2 i
 
-theorem init_wfSys (cap : Bool) (d : Dfa) (hd : LabelsBs d) (states : List Nat) :
-    WFSys (absA (elimInit (cfgPlain cap) d states)) (absB (elimInit (cfgPlain cap) d states)) := by
+theorem init_wfSys (cap esc : Bool) (d : Dfa) (hd : LabelsBs d) (states : List Nat) :
+    WFSys (absA (elimInit (cfgPlain cap esc) d states)) (absB (elimInit (cfgPlain cap esc) d states)) := by
   have h0 : WFSys (absA { a := Array.replicate d.nodes (Array.replicate d.nodes none), b := Array.replicate d.nodes none })
       (absB { a := Array.replicate d.nodes (Array.replicate d.nodes none), b := Array.replicate d.nodes none }) := by
     constructor
     · intro i j; simp only [absA, Mat.get_replicate]; exact ⟨trivial, trivial⟩
     · intro i; simp only [absB, vect_get_replicate]; trivial
-  exact (initLoop_wf cap d hd d.nodes states states 0 _ (Mat.sq_replicate d.nodes) h0).2
+  exact (initLoop_wf cap esc d hd d.nodes states states 0 _ (Mat.sq_replicate d.nodes) h0).2
 
 /-- **`Expression::from` returns a well-formed expression** for an acyclic automaton with plain labels -/
-theorem ofDfa_wf (cap : Bool) (d : Dfa) (hd : LabelsBs d) (hdfs : DfsOK d d.dfs)
-    (hacyc : ∀ c w, Dfa.Path d c w c → w = []) : (Expr.ofDfa (cfgPlain cap) d).WF := by
-  obtain ⟨h1, _, _⟩ := init_system (cfgPlain cap) d (labelsBs_plain d hd) d.dfs hdfs
-  have hno := noSelfAlong_of_acyclic (cfgPlain cap) d d.dfs hacyc d.nodes d.nodes (Nat.le_refl _) _ h1 (init_edgeSys (cfgPlain cap) d d.dfs)
-  have hw := elim_loop_wf cap d.nodes d.nodes (Nat.le_refl _) _ h1 (init_wfSys cap d hd d.dfs) hno
+theorem ofDfa_wf (cap esc : Bool) (d : Dfa) (hd : LabelsBs d) (hdfs : DfsOK d d.dfs)
+    (hacyc : ∀ c w, Dfa.Path d c w c → w = []) : (Expr.ofDfa (cfgPlain cap esc) d).WF := by
+  obtain ⟨h1, _, _⟩ := init_system (cfgPlain cap esc) d (labelsBs_plain d hd) d.dfs hdfs
+  have hno := noSelfAlong_of_acyclic (cfgPlain cap esc) d d.dfs hacyc d.nodes d.nodes (Nat.le_refl _) _ h1 (init_edgeSys (cfgPlain cap esc) d d.dfs)
+  have hw := elim_loop_wf cap esc d.nodes d.nodes (Nat.le_refl _) _ h1 (init_wfSys cap esc d hd d.dfs) hno
   rw [ofDfa_eq]
   have := hw.2 0
   simp only [absB] at this
